@@ -14,12 +14,22 @@ import (
 var errStub = errors.New("harness: witness stub error")
 
 // hostileWitness already holds a checkpoint of the log, so the feeder has to build a proof.
-type hostileWitness struct{ latest []byte }
+type hostileWitness struct {
+	latest []byte
+	upd    []hostileUpdate
+}
+
+type hostileUpdate struct {
+	oldSize uint64
+	cp      []byte
+	nproof  int
+}
 
 func (w *hostileWitness) GetLatestCheckpoint(ctx context.Context, logID string) ([]byte, error) {
 	return w.latest, nil
 }
 func (w *hostileWitness) Update(ctx context.Context, logID string, oldSize uint64, newCP []byte, proof [][]byte) ([]byte, error) {
+	w.upd = append(w.upd, hostileUpdate{oldSize: oldSize, cp: newCP, nproof: len(proof)})
 	if rt.Bool("w.update.fails") {
 		return nil, errStub
 	}
@@ -81,4 +91,14 @@ func VerifFeedHostile() {
 	rt.Cover(err == nil, "hostile/cycle-succeeds")
 	rt.Cover(err != nil, "hostile/cycle-fails")
 	rt.Cover(rt.Count("tlog.ReadHashes") > 0, "hostile/proof-built")
+	if rt.Prop("C18") {
+		// what the feeder hands to the witness for a growth step from a non-empty tree is a proof
+		// it built with tlog.ProveTree in this cycle; such a proof is never empty
+		for _, u := range w.upd {
+			if u.oldSize >= 1 && u.oldSize < rt.CpSize(u.cp) {
+				rt.Assert(rt.Count("tlog.ReadHashes") > 0 && u.nproof > 0, "C18/growth-step-carries-a-proof-built-from-tiles")
+				rt.Cover(true, "hostile/growth-submitted")
+			}
+		}
+	}
 }
